@@ -7,11 +7,17 @@ What is abstracted
 * addresses are plain `Nat` identifiers (host+port of a UDP endpoint);
 * transaction ids are `Nat`; the component's own ids are drawn from the counter `nextTx` (the C++ draws 96 random bits);
 * a received datagram is described by what `QXmppStunMessage::decode` and `handleDatagram` look at: class, method,
-  transaction id, the *status* of MESSAGE-INTEGRITY relative to the two session passwords (`Mi`), USE-CANDIDATE,
-  ICE-CONTROLLING/ICE-CONTROLLED, PRIORITY, USERNAME (never looked at by the C++), and for non-STUN traffic the payload;
+  transaction id, the LAYOUT of the attribute list as far as integrity is concerned (`attrs`: where MESSAGE-INTEGRITY
+  attributes — each with its status relative to the two session passwords — and FINGERPRINT attributes sit among the other
+  attributes, in wire order), USE-CANDIDATE, ICE-CONTROLLING/ICE-CONTROLLED, PRIORITY, USERNAME (never looked at by the C++)
+  as decoded from the part in front of the first MESSAGE-INTEGRITY, and for non-STUN traffic the payload;
 * the local password is never empty (it is generated in `QXmppIcePrivate`), the remote one is empty until set.
 
-Peer messages without a MESSAGE-INTEGRITY attribute are dropped before decoding (`hasMessageIntegrity`, repo commit f41aa68
+Two separate walks over the attribute list decide whether a peer message is accepted, and both are transcribed here as coded:
+`prescan` = `hasMessageIntegrity` in handleDatagram (true at the first MESSAGE-INTEGRITY, FALSE at a FINGERPRINT met first) and
+`decodeWalk` = the attribute loop of `QXmppStunMessage::decode` (verifies the first MESSAGE-INTEGRITY it meets, skips everything
+but FINGERPRINT after it, and STOPS SUCCESSFULLY at a FINGERPRINT, so anything behind a FINGERPRINT is never looked at).
+Peer messages for which the pre-scan finds no MESSAGE-INTEGRITY are dropped before decoding (repo commit f41aa68
 "fix: ICE accepts connectivity checks that carry no MESSAGE-INTEGRITY"); before that commit `decode` verified the attribute
 only when present and such messages were processed as authenticated.
 No proofs here.
@@ -57,11 +63,19 @@ inductive Cls | request | indication | response | error
 inductive Method | binding | other
   deriving DecidableEq, Repr
 
-/-- status of the MESSAGE-INTEGRITY attribute of a received STUN message:
-`absent` no such attribute; `validLocal` a correct HMAC under this component's LOCAL password; `validRemote` a correct
-HMAC under the REMOTE password; `wrongKey` a 20-byte code that is correct under neither; `truncated` an attribute whose
-length is not 20. (Local and remote password are assumed different, and HMAC collisions are not modelled.) -/
-inductive Mi | absent | validLocal | validRemote | wrongKey | truncated
+/-- status of ONE MESSAGE-INTEGRITY attribute of a received STUN message: `validLocal` a correct HMAC (over the bytes in front
+of it) under this component's LOCAL password; `validRemote` a correct HMAC under the REMOTE password; `wrongKey` a 20-byte
+code that is correct under neither; `truncated` an attribute whose length is not 20. (Local and remote password are assumed
+different, and HMAC collisions are not modelled.) -/
+inductive MiSt | validLocal | validRemote | wrongKey | truncated
+  deriving DecidableEq, Repr
+
+/-- one attribute as the two walks see it -/
+inductive Attr
+  | mi (st : MiSt)              -- MESSAGE-INTEGRITY
+  | fingerprint (good : Bool)   -- FINGERPRINT with a right / wrong CRC
+  | other                       -- any other attribute, known or unknown, with a well-formed length
+  | overrun                     -- an attribute whose length field runs past the end of the message body
   deriving DecidableEq, Repr
 
 inductive RoleAttr | none | controlling | controlled
@@ -71,7 +85,8 @@ structure Stun where
   cls : Cls
   method : Method := .binding
   txid : Nat
-  mi : Mi
+  /-- integrity-relevant layout of the attribute list, wire order -/
+  attrs : List Attr
   useCandidate : Bool := false
   roleAttr : RoleAttr := .none
   priority : Nat := 0
@@ -91,7 +106,7 @@ structure Datagram where
 /-- the integrity status that proves knowledge of the session credentials for a message of this class:
 requests/indications are verified with the local password, responses/errors with the remote one
 (`(messageType & 0xFF00) ? remotePassword : localPassword`). -/
-def validFor : Cls → Mi
+def validFor : Cls → MiSt
   | .request => .validLocal
   | .indication => .validLocal
   | .response => .validRemote
@@ -121,6 +136,8 @@ inductive Out
   | accepted                                   -- decode succeeded ("STUN packet from …" is logged)
   | warnBadMi                                  -- "Bad message integrity"
   | warnNoMi                                   -- "Dropping STUN packet with missing MESSAGE-INTEGRITY"
+  | warnBadFp                                  -- "Bad fingerprint"
+  | warnTruncAttr                              -- "Truncated STUN attribute …" (repo commit df53ac0)
   | roleConflict                               -- "Role conflict, expected to be …"
   | bindingResponse (to : Nat) (txid : Nat)    -- Binding success response written to `to`
   | checkSent (to : Nat) (txid : Nat) (useCandidate : Bool)   -- first transmission of a connectivity check
@@ -249,17 +266,38 @@ def handleResponse (s : St) (src : Nat) (m : Stun) : St × List Out :=
       let r := completion s1 p.remote
       (r.1, .pairState p.remote .failed :: r.2)
 
-/-- outcome of `QXmppStunMessage::decode(buffer, key)` as far as MESSAGE-INTEGRITY is concerned;
-`keyRemote` = the key handed to it is the remote password -/
-inductive Dec | ok | badMi | silent
+/-- outcome of `QXmppStunMessage::decode(buffer, key)` as far as the attribute walk is concerned -/
+inductive Dec | ok | badMi | badFp | truncAttr | silent
   deriving DecidableEq, Repr
 
-def decodeMi (keyRemote : Bool) : Mi → Dec
-  | .absent => .ok                    -- `decode` verifies only WHEN PRESENT (unreachable from `react`: dropped before)
+/-- the check made on a MESSAGE-INTEGRITY attribute when `decode` meets it (the key is never empty on the peer path);
+`keyRemote` = the key handed to `decode` is the remote password -/
+def miCheck (keyRemote : Bool) : MiSt → Dec
   | .validLocal => if keyRemote then .badMi else .ok
   | .validRemote => if keyRemote then .ok else .badMi
   | .wrongKey => .badMi
   | .truncated => .silent             -- `a_length != 20` ⇒ `return false` without a message
+
+/-- `hasMessageIntegrity(buffer)` in handleDatagram: true at the first MESSAGE-INTEGRITY, false at a FINGERPRINT met first or
+at the end of the attribute list -/
+def prescan : List Attr → Bool
+  | [] => false
+  | .mi _ :: _ => true
+  | .fingerprint _ :: _ => false
+  | .other :: rest => prescan rest
+  | .overrun :: _ => false            -- the offset jumps past the end of the buffer: the loop ends
+
+/-- the attribute loop of `QXmppStunMessage::decode`: `afterIntegrity` = a MESSAGE-INTEGRITY has been verified already -/
+def decodeWalk (keyRemote : Bool) : Bool → List Attr → Dec
+  | _, [] => .ok
+  | _, .overrun :: _ => .truncAttr    -- checked before anything else, also behind MESSAGE-INTEGRITY
+  | afterIntegrity, .mi st :: rest =>
+    if afterIntegrity then decodeWalk keyRemote true rest       -- "Skipping attribute … after MESSAGE-INTEGRITY"
+    else match miCheck keyRemote st with
+      | .ok => decodeWalk keyRemote true rest
+      | e => e
+  | _, .fingerprint good :: _ => if good then .ok else .badFp   -- "stop parsing, no more attributes are allowed"
+  | afterIntegrity, .other :: rest => decodeWalk keyRemote afterIntegrity rest
 
 /-- `QXmppIceComponent::handleDatagram` -/
 def react (s : St) (d : Datagram) : St × List Out :=
@@ -273,9 +311,11 @@ def react (s : St) (d : Datagram) : St × List Out :=
   | .stun m =>
     let keyRemote := m.cls == .response || m.cls == .error
     if keyRemote && !s.remotePwSet then (s, []) else
-    if m.mi == .absent then (s, [.warnNoMi]) else            -- `!hasMessageIntegrity(buffer)`
-    match decodeMi keyRemote m.mi with
+    if !prescan m.attrs then (s, [.warnNoMi]) else             -- `!hasMessageIntegrity(buffer)`
+    match decodeWalk keyRemote false m.attrs with
     | .badMi => (s, [.warnBadMi])
+    | .badFp => (s, [.warnBadFp])
+    | .truncAttr => (s, [.warnTruncAttr])
     | .silent => (s, [])
     | .ok =>
       if m.method != .binding then (s, [.accepted]) else
@@ -363,10 +403,21 @@ def isCheckSent : Out → Bool
   | .checkSent _ _ _ => true
   | _ => false
 
-/-- a STUN datagram whose MESSAGE-INTEGRITY is not the valid one for its class -/
+/-- SPECIFICATION side (RFC 5389 15.4 / 15.5, not a transcription of the code): the integrity attribute that protects a
+message is its first MESSAGE-INTEGRITY, and it only counts when no FINGERPRINT precedes it (FINGERPRINT is the last attribute
+of a message; what follows it is not part of the message).  `none` = the message carries no integrity protection. -/
+def protectingMi : List Attr → Option MiSt
+  | [] => none
+  | .mi st :: _ => some st
+  | .fingerprint _ :: _ => none
+  | .other :: rest => protectingMi rest
+  | .overrun :: _ => none
+
+/-- a STUN datagram that does not carry a valid integrity code under the session key for its class: no protecting
+MESSAGE-INTEGRITY at all (none, or only behind a FINGERPRINT), or one that is wrong / under the other password / truncated -/
 def Datagram.unauthenticated (d : Datagram) : Bool :=
   match d.kind with
-  | .stun m => m.mi != validFor m.cls
+  | .stun m => protectingMi m.attrs != some (validFor m.cls)
   | .nonStun _ => false
 
 def Op.unauthenticated : Op → Bool
@@ -390,17 +441,19 @@ structure Net where
 sender's remote password = receiver's local one, a response with the sender's local = receiver's remote one -/
 def wire (sender : St) (from_ : Nat) : Out → Option (Nat × Datagram)
   | .checkSent to t uc =>
-    let m : Stun := { cls := .request, txid := t, mi := .validLocal, useCandidate := uc,
+    let m : Stun := { cls := .request, txid := t, attrs := [.mi .validLocal, .fingerprint true], useCandidate := uc,
                       roleAttr := if sender.controlling then .controlling else .controlled,
                       priority := prflxPriority sender.component }
     some (to, ({ src := from_, kind := .stun m } : Datagram))
   | .bindingResponse to t =>
-    let m : Stun := { cls := .response, txid := t, mi := .validRemote }
+    let m : Stun := { cls := .response, txid := t, attrs := [.mi .validRemote, .fingerprint true] }
     some (to, ({ src := from_, kind := .stun m } : Datagram))
   | .appSent to p => some (to, ({ src := from_, kind := .nonStun p } : Datagram))
   | .accepted => none
   | .warnBadMi => none
   | .warnNoMi => none
+  | .warnBadFp => none
+  | .warnTruncAttr => none
   | .roleConflict => none
   | .pairState _ _ => none
   | .selected _ _ => none
